@@ -104,6 +104,9 @@ class Discriminator:
     variant_tagger_fn: Optional[Callable[[Any], Any]] = None
 
     def __post_init__(self) -> None:
+        if isinstance(self.field, str) and type(self.field) is not str:
+            # a member of a str based enum: the key is the plain string
+            self.field = str.__str__(self.field)
         if not self.include_supertypes and not self.include_subtypes:
             raise ValueError(
                 "Either 'include_supertypes' or 'include_subtypes' "
